@@ -1131,13 +1131,20 @@ def rule_bytes(ctx: Ctx) -> RuleReport:
             rep.ok({"rtf_letter_branch": letter, "requires_number": needs_match})
     # (n) RTF: the "inside a skipped destination" state is a depth, not a flag that any nested destination may re-arm: entering the
     # state while it is already on overwrites the depth at which it ends, and the rest of the outer group ({\pict ... hex data}) becomes text
-    flag_sets = [a for a in walk_own(full.node) if isinstance(a, ast.Assign) and any(isinstance(t, ast.Name) and t.id == "skip_group" for t in a.targets) and isinstance(a.value, ast.Constant) and a.value.value is True]
+    # the state variable is recognised by its role: the local that is set to True where the destination test (_is_skip_destination) holds
+    flag_sets = []
+    for a in walk_own(full.node):
+        if isinstance(a, ast.Assign) and len(a.targets) == 1 and isinstance(a.targets[0], ast.Name) and isinstance(a.value, ast.Constant) and a.value.value is True:
+            conds_, opaque_, _ = path_conditions(full.node, a)
+            if any("_is_skip_destination" in str(c) for c in list(conds_) + list(opaque_)):
+                flag_sets.append(a)
     if not flag_sets:
-        raise AnalysisError("C02-BYTES: the skip_group state of _strip_rtf_full_with_pages was not found")
+        raise AnalysisError("C02-BYTES: the skip state of _strip_rtf_full_with_pages (a flag set where _is_skip_destination holds) was not found")
     for a in flag_sets:
         conds, opaque, _ = path_conditions(full.node, a)
         cs = {str(c) for c in conds} | set(opaque)
-        if "not skip_group" in cs or any(c.startswith("not skip_group") or " and not skip_group" in c for c in cs):
+        fv = a.targets[0].id
+        if f"not {fv}" in cs or any(c.startswith(f"not {fv}") or f" and not {fv}" in c for c in cs):
             rep.ok({"rtf_skip_state": "entered only when not already skipping", "under": sorted(cs)[-2:]})
         else:
             rep.fail(Finding("C02-BYTES", RTF, full.qual, "skip state re-armed inside a skipped group", "skip_group / skip_depth are set for every destination group, also for one nested in a group that is already being skipped: when the nested group closes the skipping ends, and the rest of the outer group is emitted as text -- Word writes {\\pict{\\*\\picprop ...}<hex data>}, so the hexadecimal picture data lands in the body text", line=a.lineno))
